@@ -263,13 +263,22 @@ Qed.
 (* ------------------------------------------------------------------ *)
 (* one round of read_lines_to_outerboundary *)
 
-Lemma carry_spec d l : exists dpre odelim,
-  carry d l = (dpre ++ l, odelim) /\ odelim ++ dpre = d /\
-  (dpre = [] \/ dpre = [13]).
+Lemma carry_cases d lfend l : l <> [] ->
+  (d <> [13] /\ carry d lfend l = CLine l d lfend) \/
+  (d = [13] /\ carry d lfend l = CLine (13 :: l) [] lfend) \/
+  (d = [13] /\ exists r, l = 10 :: r /\ r <> [] /\
+                        carry d lfend l = CLine r [13; 10] true) \/
+  (d = [13] /\ l = [10] /\ carry d lfend l = CSkip).
 Proof.
-  unfold carry. destruct (lz_eqb d [13]) eqn:E.
-  - apply lz_eqb_eq in E. subst d. exists [13], []. auto.
-  - exists [], d. rewrite app_nil_r. auto.
+  intros Hne. unfold carry. destruct (lz_eqb d [13]) eqn:E.
+  - apply lz_eqb_eq in E. subst d. destruct l as [|x r]; [congruence|].
+    destruct (x =? 10) eqn:Ex.
+    + apply Z.eqb_eq in Ex. subst x. destruct r as [|y r].
+      * right. right. right. auto.
+      * right. right. left. split; [reflexivity|]. exists (y :: r).
+        repeat split; auto. discriminate.
+    + right. left. auto.
+  - left. split; [|reflexivity]. intros ->. discriminate.
 Qed.
 
 Lemma boundary_hit_some nb lb line lfend k :
@@ -304,6 +313,100 @@ Proof.
   apply in_or_app. right. left. reflexivity.
 Qed.
 
+Definition optb (o : option bytes) : bytes :=
+  match o with Some p => p | None => [] end.
+
+Lemma boundary_hit_lf_false nb lb line : boundary_hit nb lb line false = None.
+Proof. unfold boundary_hit. rewrite andb_false_r. reflexivity. Qed.
+
+(* a line of the content never passes the boundary test.  The line starts
+   right behind an LF (or at the start of c): 10 :: c = X ++ [10] ++ l1 ++ c2b
+   where l1 is the part of the line inside the content. *)
+Lemma no_false_hit maxline b c X l1 c2b m line :
+  (forall x, In x b -> 32 <= x <= 126) ->
+  len b + 6 <= maxline ->
+  no_delim_line b c ->
+  10 :: c = X ++ [10] ++ l1 ++ c2b ->
+  line = l1 ++ m ->
+  (m = [] \/ (m = [13] /\ c2b = []) \/ (m = [13; 10] /\ c2b = [])) ->
+  (m = [] -> ~ ends_lf line -> maxline <= len line + 1) ->
+  boundary_hit (dashb b) (dashb b ++ [45; 45]) line true = None.
+Proof.
+  intros Hb Hmaxb Hnd HX Hline Hm Hcut.
+  destruct (boundary_hit (dashb b) (dashb b ++ [45; 45]) line true)
+    as [hit|] eqn:E; [|reflexivity]. exfalso.
+  apply boundary_hit_some in E as [_ E].
+  (* the line is the dash-boundary followed by t0 = blanks or "--" blanks *)
+  assert (Hpre : exists t0, line = dashb b ++ t0 /\
+            (forallb is_ws t0 = true \/
+             exists t, t0 = 45 :: 45 :: t /\ forallb is_ws t = true)).
+  { destruct E as [[_ [t [Ht Hw]]] | [_ [t [Ht Hw]]]].
+    - exists t. split; [exact Ht | left; exact Hw].
+    - exists ([45; 45] ++ t). split; [rewrite Ht; lnorm; reflexivity|].
+      right. exists t. split; [reflexivity | exact Hw]. }
+  destruct Hpre as [t0 [Ht Hform]]. rewrite Hline in Ht.
+  assert (H13 : ~ In 13 (dashb b)).
+  { intros Hi. apply (dashb_chars b 13 Hb) in Hi. lia. }
+  assert (H10 : ~ In 10 (dashb b)).
+  { intros Hi. apply (dashb_chars b 10 Hb) in Hi. lia. }
+  destruct (app_prefix_clean l1 m (dashb b) t0 13 Ht H13) as [k Hk].
+  { destruct Hm as [-> | [[-> _] | [-> _]]]; eauto. }
+  rewrite Hk, <- app_assoc in Ht. apply app_inv_head in Ht.
+  assert (Hh : harmless ((k ++ c2b) ++ [13; 10]) = true).
+  { apply (Hnd X (k ++ c2b)). rewrite HX, Hk. lnorm. reflexivity. }
+  assert (Hlen_db : len (dashb b) = len b + 2)
+    by (unfold dashb; rewrite !len_cons; lia).
+  (* a piece that is exactly "--b" or "--b--" inside the content would be a
+     size cut, but the line limit is larger *)
+  assert (Hshort : m = [] -> (k = [] \/ k = [45; 45]) -> False).
+  { intros Hm0 Hk0. subst m. rewrite app_nil_r in Hline.
+    assert (Hnl : ~ ends_lf line).
+    { apply (not_ends_lf_in line line);
+        [|exists []; rewrite app_nil_r; reflexivity|].
+      - rewrite Hline, Hk. intros Hi. apply in_app_or in Hi as [Hi|Hi];
+          [exact (H10 Hi)|].
+        destruct Hk0 as [-> | ->]; cbn in Hi; intuition discriminate.
+      - rewrite Hline, Hk. unfold dashb. discriminate. }
+    specialize (Hcut eq_refl Hnl).
+    rewrite Hline, Hk, len_app, Hlen_db in Hcut.
+    destruct Hk0 as [-> | ->];
+      [change (len (@nil Z)) with 0 in Hcut
+      |change (len [45; 45]) with 2 in Hcut]; lia. }
+  assert (Hc2b : m <> [] -> c2b = []).
+  { intros Hmn. destruct Hm as [-> | [[_ Hx] | [_ Hx]]];
+      [congruence | exact Hx | exact Hx]. }
+  destruct Hform as [Hw | [t [He Hw]]].
+  - (* blanks only *)
+    destruct k as [|k1 k].
+    + destruct m as [|m1 m'] eqn:Em.
+      * apply Hshort; [reflexivity | left; reflexivity].
+      * rewrite (Hc2b ltac:(discriminate)) in Hh. cbn in Hh. discriminate.
+    + cbn [app] in Ht. subst t0. cbn [forallb] in Hw.
+      apply andb_true_iff in Hw as [Hw _].
+      cbn [app] in Hh. rewrite (harmless_ws k1 _ Hw) in Hh. discriminate.
+  - (* "--" and blanks *)
+    rewrite He in Ht.
+    destruct k as [|k1 [|k2 [|k3 k]]].
+    + cbn [app] in Ht. destruct Hm as [-> | [[-> _] | [-> _]]];
+        discriminate Ht.
+    + cbn [app] in Ht. injection Ht as _ Ht.
+      destruct Hm as [-> | [[-> _] | [-> _]]]; discriminate Ht.
+    + cbn [app] in Ht. injection Ht as -> -> Ht.
+      destruct m as [|m1 m'] eqn:Em.
+      * apply Hshort; [reflexivity | right; reflexivity].
+      * rewrite (Hc2b ltac:(discriminate)) in Hh. cbn in Hh. discriminate.
+    + cbn [app] in Ht. injection Ht as -> -> Ht. subst t.
+      cbn [app forallb] in Hw. apply andb_true_iff in Hw as [Hw _].
+      cbn [app harmless] in Hh. cbn in Hh. rewrite Hw in Hh. discriminate.
+Qed.
+
+Lemma ends_lf_tail r : r <> [] -> ends_lf (10 :: r) -> ends_lf r.
+Proof.
+  intros Hr [y Hy]. destruct y as [|y0 y].
+  - cbn [app] in Hy. injection Hy as ->. congruence.
+  - cbn [app] in Hy. injection Hy as _ ->. exists y. reflexivity.
+Qed.
+
 (* phase A: the delimiter CRLF--b is still completely unread *)
 Lemma step_content maxline b c w d lfend l u' c2 z :
   (forall x, In x b -> 32 <= x <= 126) ->
@@ -316,146 +419,171 @@ Lemma step_content maxline b c w d lfend l u' c2 z :
   l ++ u' = c2 ++ [13; 10] ++ z ->
   exists piece d' lf',
     rlob_step (dashb b) (dashb b ++ [45; 45]) d lfend l = SCont piece d' lf' /\
-    (w ++ piece) ++ d' = (w ++ d) ++ l /\
-    (lf' = true -> ends_lf ((w ++ piece) ++ d')) /\
-    (d' = [13] -> exists y, l = y ++ [13]) /\
-    ((exists c2', u' = c2' ++ [13; 10] ++ z /\ (w ++ piece) ++ d' ++ c2' = c) \/
-     (d' = [13] /\ w ++ piece = c /\ u' = 10 :: z) \/
-     (d' = [13; 10] /\ w ++ piece = c /\ lf' = true /\ u' = z)).
+    (w ++ optb piece) ++ d' = (w ++ d) ++ l /\
+    (lf' = true -> ends_lf ((w ++ optb piece) ++ d')) /\
+    ((exists c2', u' = c2' ++ [13; 10] ++ z /\
+                  (w ++ optb piece) ++ d' ++ c2' = c) \/
+     (d' = [13] /\ w ++ optb piece = c /\ u' = 10 :: z) \/
+     (d' = [13; 10] /\ w ++ optb piece = c /\ lf' = true /\ u' = z)).
 Proof.
   intros Hb Hmaxb Hnd Hc Hlf Hne Hin Hfull Hcat.
   destruct (piece_cases l u' c2 z Hcat Hin) as (l1 & c2b & m & Hl & Hc2 & Hm).
-  destruct (carry_spec d l) as (dpre & odelim & Hcarry & Hd & Hdpre).
-  unfold rlob_step. rewrite Hcarry.
-  assert (Hhit : boundary_hit (dashb b) (dashb b ++ [45; 45]) (dpre ++ l) lfend
-                 = None).
-  { destruct (boundary_hit (dashb b) (dashb b ++ [45; 45]) (dpre ++ l) lfend)
-      as [hit|] eqn:E; [|reflexivity]. exfalso.
-    apply boundary_hit_some in E as [Elf E].
-    (* the line is the dash-boundary followed by t0 = blanks or "--" blanks *)
-    assert (Hpre : exists t0, dpre ++ l = dashb b ++ t0 /\
-              (forallb is_ws t0 = true \/
-               exists t, t0 = 45 :: 45 :: t /\ forallb is_ws t = true)).
-    { destruct E as [[_ [t [Ht Hw]]] | [_ [t [Ht Hw]]]].
-      - exists t. split; [exact Ht | left; exact Hw].
-      - exists ([45; 45] ++ t). split; [rewrite Ht; lnorm; reflexivity|].
-        right. exists t. split; [reflexivity | exact Hw]. }
-    destruct Hpre as [t0 [Ht Hform]].
-    destruct Hdpre as [-> | ->]; [|discriminate Ht].
-    cbn [app] in Ht, Hd. rewrite app_nil_r in Hd. subst odelim.
-    rewrite Hl in Ht.
-    assert (H13 : ~ In 13 (dashb b)).
-    { intros Hi. apply (dashb_chars b 13 Hb) in Hi. lia. }
-    assert (H10 : ~ In 10 (dashb b)).
-    { intros Hi. apply (dashb_chars b 10 Hb) in Hi. lia. }
-    destruct (app_prefix_clean l1 m (dashb b) t0 13 Ht H13) as [k Hk].
-    { destruct Hm as [[-> _] | [[-> _] | [-> _]]]; eauto. }
-    rewrite Hk, <- app_assoc in Ht. apply app_inv_head in Ht.
-    (* the dash-boundary starts a line of the content *)
-    assert (Hh : harmless ((k ++ c2b) ++ [13; 10]) = true).
-    { specialize (Hlf Elf). destruct Hlf as [Hlf | [y Hlf]].
-      - apply (Hnd [] (k ++ c2b)). rewrite <- Hc, Hc2, Hk, app_assoc, Hlf.
-        lnorm. reflexivity.
-      - apply (Hnd (10 :: y) (k ++ c2b)).
-        rewrite <- Hc, Hc2, Hk, app_assoc, Hlf. lnorm. reflexivity. }
-    assert (Hlen_db : len (dashb b) = len b + 2)
-      by (unfold dashb; rewrite !len_cons; lia).
-    (* a piece that is exactly "--b" or "--b--" inside the content would be a
-       size cut, but the line limit is larger *)
-    assert (Hshort : m = [] -> (k = [] \/ k = [45; 45]) -> False).
-    { intros Hm0 Hk0. subst m. rewrite app_nil_r in Hl.
+  assert (Hm' : m = [] \/ (m = [13] /\ c2b = []) \/ (m = [13; 10] /\ c2b = [])).
+  { destruct Hm as [[-> _] | [[-> [-> _]] | [-> [-> _]]]]; auto. }
+  assert (Hu_ne : m = [] -> u' <> []).
+  { intros ->. destruct Hm as [[_ ->] | [[Hx _] | [Hx _]]]; try discriminate Hx.
+    destruct c2b; discriminate. }
+  unfold rlob_step.
+  destruct (carry_cases d lfend l Hne)
+    as [[Hd Hcarry] | [[Hd Hcarry] | [[Hd (r & Hlr & Hrne & Hcarry)]
+                                     | [Hd [Hl10 Hcarry]]]]];
+    rewrite Hcarry.
+  4:{ (* the piece is the LF of a divided CRLF inside the content *)
+      subst d. rewrite Hl10 in *. clear Hl10.
+      exists None, [13; 10], true. cbn [optb].
+      split; [reflexivity|]. rewrite app_nil_r. split; [lnorm; reflexivity|].
+      split; [intros _; exists (w ++ [13]); lnorm; reflexivity|].
+      left.
+      assert (m = []).
+      { destruct Hm' as [-> | [[-> _] | [-> _]]]; [reflexivity| |].
+        - destruct l1 as [|? [|? ?]]; discriminate Hl.
+        - destruct l1 as [|? [|? ?]]; discriminate Hl. }
+      subst m. rewrite app_nil_r in Hl. subst l1.
       destruct Hm as [[_ Hu] | [[Hx _] | [Hx _]]]; try discriminate Hx.
-      assert (Hnl : ~ ends_lf l).
-      { apply (not_ends_lf_in l l); [|exists []; rewrite app_nil_r; reflexivity
-                                     |exact Hne].
-        rewrite Hl, Hk. intros Hi. apply in_app_or in Hi as [Hi|Hi];
-          [exact (H10 Hi)|].
-        destruct Hk0 as [-> | ->]; cbn in Hi; intuition discriminate. }
-      destruct (Hfull Hnl) as [Hf | Hf].
-      - rewrite Hl, Hk, len_app, Hlen_db in Hf.
-        destruct Hk0 as [-> | ->];
-          [change (len (@nil Z)) with 0 in Hf | change (len [45; 45]) with 2 in Hf];
-          lia.
-      - rewrite Hu in Hf. destruct c2b; discriminate. }
-    destruct Hform as [Hw | [t [He Hw]]].
-    - (* blanks only *)
-      destruct k as [|k1 k].
-      + destruct m as [|m1 m'] eqn:Em.
-        * apply Hshort; [reflexivity | left; reflexivity].
-        * assert (c2b = []) by (destruct Hm as [[Hx _] | [[_ [Hx _]] | [_ [Hx _]]]];
-                                [discriminate Hx | exact Hx | exact Hx]).
-          subst c2b. cbn [app] in Hh.
-          cbn in Hh. discriminate.
-      + cbn [app] in Ht. subst t0. cbn [forallb] in Hw.
-        apply andb_true_iff in Hw as [Hw _].
-        cbn [app] in Hh. rewrite (harmless_ws k1 _ Hw) in Hh. discriminate.
-    - (* "--" and blanks *)
-      rewrite He in Ht.
-      destruct k as [|k1 [|k2 [|k3 k]]].
-      + cbn [app] in Ht. destruct Hm as [[-> _] | [[-> _] | [-> _]]];
-          discriminate Ht.
-      + cbn [app] in Ht. injection Ht as _ Ht.
-        destruct Hm as [[-> _] | [[-> _] | [-> _]]]; discriminate Ht.
-      + cbn [app] in Ht. injection Ht as -> -> Ht.
-        destruct m as [|m1 m'] eqn:Em.
-        * apply Hshort; [reflexivity | right; reflexivity].
-        * assert (c2b = []) by (destruct Hm as [[Hx _] | [[_ [Hx _]] | [_ [Hx _]]]];
-                                [discriminate Hx | exact Hx | exact Hx]).
-          subst c2b. cbn in Hh. discriminate.
-      + cbn [app] in Ht. injection Ht as -> -> Ht. subst t.
-        cbn [app forallb] in Hw. apply andb_true_iff in Hw as [Hw _].
-        cbn [app harmless] in Hh. cbn in Hh. rewrite Hw in Hh. discriminate. }
-  rewrite Hhit.
-  assert (Hwd : forall r, w ++ odelim ++ dpre ++ r = (w ++ d) ++ r).
-  { intros r. rewrite <- Hd, <- !app_assoc. reflexivity. }
-  destruct Hm as [[-> Hu] | [[-> [-> Hu]] | [-> [-> Hu]]]].
-  - (* the piece ends inside the content *)
-    rewrite app_nil_r in Hl. subst l1.
-    destruct (split_end (dpre ++ l)) as [[body d'] lf'] eqn:Es.
-    apply split_end_spec in Es as (Hline & Hlf' & Hcr).
-    exists (odelim ++ body), d', lf'.
-    assert (Hall : (w ++ odelim ++ body) ++ d' = (w ++ d) ++ l).
-    { rewrite <- Hwd, Hline, <- !app_assoc. reflexivity. }
-    split; [reflexivity|]. split; [exact Hall|]. split; [|split].
-    + intros E. rewrite Hall. apply ends_lf_app.
-      specialize (Hlf' E). destruct Hdpre as [-> | ->]; [exact Hlf'|].
-      destruct Hlf' as [y Hy]. destruct (exists_last Hne) as (l' & x & ->).
-      change ([13] ++ l' ++ [x]) with ((13 :: l') ++ [x]) in Hy.
-      apply app_inj_tail in Hy as [_ ->].
-      exists l'. reflexivity.
-    + intros E. destruct (Hcr E) as [y Hy].
-      destruct Hdpre as [-> | ->]; [exists y; exact Hy|].
-      destruct (exists_last Hne) as (l' & x & ->).
-      change ([13] ++ l' ++ [x]) with ((13 :: l') ++ [x]) in Hy.
-      apply app_inj_tail in Hy as [_ ->].
-      exists l'. reflexivity.
-    + left. exists c2b. split; [exact Hu|].
-      rewrite app_assoc, Hall, <- Hc, Hc2, <- !app_assoc. reflexivity.
-  - (* the piece ends between CR and LF of the delimiter *)
-    rewrite app_nil_r in Hc2. subst l1.
-    rewrite Hl, app_assoc, split_end_cr.
-    exists (odelim ++ dpre ++ c2), [13], false.
-    split; [reflexivity|]. split; [|split; [discriminate|split]].
-    + rewrite <- Hwd. lnorm. reflexivity.
-    + intros _. exists c2. reflexivity.
-    + right. left. split; [reflexivity|]. split; [|exact Hu].
-      rewrite Hwd, <- Hc, <- app_assoc. reflexivity.
-  - (* the piece ends right before the dash-boundary *)
-    rewrite app_nil_r in Hc2. subst l1.
-    rewrite Hl, app_assoc, split_end_crlf.
-    exists (odelim ++ dpre ++ c2), [13; 10], true.
-    split; [reflexivity|]. split; [|split; [|split; [discriminate|]]].
-    + rewrite <- Hwd. lnorm. reflexivity.
-    + intros _. exists ((w ++ odelim ++ dpre ++ c2) ++ [13]).
-      lnorm. reflexivity.
-    + right. right. split; [reflexivity|]. split; [|split; [reflexivity|exact Hu]].
-      rewrite Hwd, <- Hc, <- app_assoc. reflexivity.
+      exists c2b. split; [exact Hu|]. rewrite <- Hc, Hc2. lnorm. reflexivity. }
+  all: (* a line was formed: line = lpre ++ m, odelim ++ lpre = d ++ l1 *)
+    match goal with
+    | |- context [boundary_hit _ _ ?line ?lf1] =>
+        assert (Hhit : boundary_hit (dashb b) (dashb b ++ [45; 45]) line lf1
+                       = None)
+    end.
+  - (* ordinary line *)
+    destruct lfend; [|apply boundary_hit_lf_false].
+    destruct (Hlf eq_refl) as [Hwd | [y Hwd]].
+    + apply (no_false_hit maxline b c [] l1 c2b m l Hb Hmaxb Hnd); auto.
+      * rewrite <- Hc, Hc2, app_assoc, Hwd. reflexivity.
+      * intros Hm0 Hnl. destruct (Hfull Hnl) as [Hx | Hx]; [lia|].
+        exfalso. exact (Hu_ne Hm0 Hx).
+    + apply (no_false_hit maxline b c (10 :: y) l1 c2b m l Hb Hmaxb Hnd); auto.
+      * rewrite <- Hc, Hc2, app_assoc, Hwd. lnorm. reflexivity.
+      * intros Hm0 Hnl. destruct (Hfull Hnl) as [Hx | Hx]; [lia|].
+        exfalso. exact (Hu_ne Hm0 Hx).
+  - rewrite Hhit.
+    destruct (split_end l) as [[body d'] lf'] eqn:Es.
+    pose proof (split_end_spec _ _ _ _ Es) as (Hline & Hlf' & _).
+    assert (Hall : (w ++ d ++ body) ++ d' = (w ++ d) ++ l).
+    { rewrite Hline. lnorm. reflexivity. }
+    destruct Hm as [[-> Hu] | [[-> [-> Hu]] | [-> [-> Hu]]]].
+    + rewrite app_nil_r in Hl. subst l1.
+      exists (Some (d ++ body)), d', lf'. cbn [optb].
+      split; [reflexivity|]. split; [exact Hall|]. split.
+      { intros E. rewrite Hall. apply ends_lf_app. exact (Hlf' E). }
+      left. exists c2b. split; [exact Hu|].
+      rewrite app_assoc, Hall, <- Hc, Hc2. lnorm. reflexivity.
+    + rewrite app_nil_r in Hc2. subst l1. rewrite Hl, split_end_cr in Es.
+      injection Es as <- <- <-.
+      exists (Some (d ++ c2)), [13], false. cbn [optb].
+      split; [reflexivity|]. split; [rewrite Hl; lnorm; reflexivity|].
+      split; [discriminate|]. right. left.
+      split; [reflexivity|]. split; [|exact Hu]. rewrite <- Hc. reflexivity.
+    + rewrite app_nil_r in Hc2. subst l1. rewrite Hl, split_end_crlf in Es.
+      injection Es as <- <- <-.
+      exists (Some (d ++ c2)), [13; 10], true. cbn [optb].
+      split; [reflexivity|]. split; [rewrite Hl; lnorm; reflexivity|].
+      split; [intros _; exists ((w ++ d ++ c2) ++ [13]); lnorm; reflexivity|].
+      right. right. split; [reflexivity|].
+      split; [rewrite <- Hc; reflexivity|]. split; [reflexivity | exact Hu].
+  - (* a carried CR in front of something else than LF *)
+    unfold boundary_hit. cbn [prefixb]. replace (45 =? 13) with false by reflexivity.
+    reflexivity.
+  - rewrite Hhit. subst d.
+    assert (Hlx : forall x, split_end (13 :: x) = split_end ([13] ++ x))
+      by reflexivity.
+    destruct (split_end (13 :: l)) as [[body d'] lf'] eqn:Es.
+    pose proof (split_end_spec _ _ _ _ Es) as (Hline & Hlf' & _).
+    assert (Hall : (w ++ [] ++ body) ++ d' = (w ++ [13]) ++ l).
+    { cbn [app]. rewrite <- app_assoc, <- Hline. lnorm. reflexivity. }
+    destruct Hm as [[-> Hu] | [[-> [-> Hu]] | [-> [-> Hu]]]].
+    + rewrite app_nil_r in Hl. subst l1.
+      exists (Some ([] ++ body)), d', lf'. cbn [optb].
+      split; [reflexivity|]. split; [exact Hall|]. split.
+      { intros E. rewrite Hall. specialize (Hlf' E).
+        rewrite <- app_assoc. apply ends_lf_app. exact Hlf'. }
+      left. exists c2b. split; [exact Hu|].
+      rewrite app_assoc, Hall, <- Hc, Hc2. lnorm. reflexivity.
+    + rewrite app_nil_r in Hc2. subst l1.
+      rewrite Hl in Es. change (13 :: c2 ++ [13]) with ((13 :: c2) ++ [13]) in Es.
+      rewrite split_end_cr in Es. injection Es as <- <- <-.
+      exists (Some ([] ++ 13 :: c2)), [13], false. cbn [optb].
+      split; [reflexivity|]. split; [rewrite Hl; lnorm; reflexivity|].
+      split; [discriminate|]. right. left.
+      split; [reflexivity|]. split; [|exact Hu]. rewrite <- Hc. lnorm.
+      reflexivity.
+    + rewrite app_nil_r in Hc2. subst l1.
+      rewrite Hl in Es.
+      change (13 :: c2 ++ [13; 10]) with ((13 :: c2) ++ [13; 10]) in Es.
+      rewrite split_end_crlf in Es. injection Es as <- <- <-.
+      exists (Some ([] ++ 13 :: c2)), [13; 10], true. cbn [optb].
+      split; [reflexivity|]. split; [rewrite Hl; lnorm; reflexivity|].
+      split; [intros _; exists ((w ++ 13 :: c2) ++ [13]); lnorm; reflexivity|].
+      right. right. split; [reflexivity|].
+      split; [rewrite <- Hc; lnorm; reflexivity|].
+      split; [reflexivity | exact Hu].
+  - (* the CRLF in the content was divided by the size limit and the LF
+       came back glued to the next line r *)
+    subst d. rewrite Hlr in Hl, Hfull. clear Hlr.
+    assert (Hl1 : exists l1', l1 = 10 :: l1' /\ r = l1' ++ m).
+    { destruct l1 as [|x l1'].
+      - cbn [app] in Hl. subst m.
+        destruct Hm' as [Hx | [[Hx _] | [Hx _]]]; discriminate Hx.
+      - cbn [app] in Hl. injection Hl as <- Hl. exists l1'. auto. }
+    destruct Hl1 as (l1' & -> & Hr).
+    apply (no_false_hit maxline b c (10 :: w ++ [13]) l1' c2b m r Hb Hmaxb Hnd);
+      auto.
+    + rewrite <- Hc, Hc2. lnorm. reflexivity.
+    + intros Hm0 Hnl.
+      assert (Hnl' : ~ ends_lf (10 :: r)).
+      { intros He. apply Hnl. apply ends_lf_tail; assumption. }
+      destruct (Hfull Hnl') as [Hx | Hx].
+      * rewrite len_cons in Hx. lia.
+      * exfalso. exact (Hu_ne Hm0 Hx).
+  - rewrite Hhit. subst d. rewrite Hlr in *. clear Hlr.
+    assert (Hl1 : exists l1', l1 = 10 :: l1' /\ r = l1' ++ m).
+    { destruct l1 as [|x l1'].
+      - cbn [app] in Hl. subst m.
+        destruct Hm' as [Hx | [[Hx _] | [Hx _]]]; discriminate Hx.
+      - cbn [app] in Hl. injection Hl as <- Hl. exists l1'. auto. }
+    destruct Hl1 as (l1' & -> & Hr).
+    destruct (split_end r) as [[body d'] lf'] eqn:Es.
+    pose proof (split_end_spec _ _ _ _ Es) as (Hline & Hlf' & _).
+    assert (Hall : (w ++ [13; 10] ++ body) ++ d' = (w ++ [13]) ++ 10 :: r).
+    { rewrite Hline. lnorm. reflexivity. }
+    destruct Hm as [[-> Hu] | [[-> [-> Hu]] | [-> [-> Hu]]]].
+    + rewrite app_nil_r in Hr. subst l1'.
+      exists (Some ([13; 10] ++ body)), d', lf'. cbn [optb].
+      split; [reflexivity|]. split; [exact Hall|]. split.
+      { intros E. rewrite Hall. specialize (Hlf' E).
+        change ((w ++ [13]) ++ 10 :: r) with ((w ++ [13]) ++ [10] ++ r).
+        rewrite app_assoc. apply ends_lf_app. exact Hlf'. }
+      left. exists c2b. split; [exact Hu|].
+      rewrite app_assoc, Hall, <- Hc, Hc2. lnorm. reflexivity.
+    + rewrite app_nil_r in Hc2. rewrite Hr, split_end_cr in Es.
+      injection Es as <- <- <-.
+      exists (Some ([13; 10] ++ l1')), [13], false. cbn [optb].
+      split; [reflexivity|]. split; [rewrite Hr; lnorm; reflexivity|].
+      split; [discriminate|]. right. left.
+      split; [reflexivity|]. split; [|exact Hu]. rewrite <- Hc, Hc2. lnorm.
+      reflexivity.
+    + rewrite app_nil_r in Hc2. rewrite Hr, split_end_crlf in Es.
+      injection Es as <- <- <-.
+      exists (Some ([13; 10] ++ l1')), [13; 10], true. cbn [optb].
+      split; [reflexivity|]. split; [rewrite Hr; lnorm; reflexivity|].
+      split; [intros _; exists ((w ++ [13; 10] ++ l1') ++ [13]); lnorm;
+              reflexivity|].
+      right. right. split; [reflexivity|].
+      split; [rewrite <- Hc, Hc2; lnorm; reflexivity|].
+      split; [reflexivity | exact Hu].
 Qed.
-
-(* phase B: a cut separated the CR of the delimiter from its LF *)
-Lemma step_lone_lf nb lb lfend :
-  rlob_step nb lb [13] lfend [10] = SCont [] [13; 10] true.
-Proof. reflexivity. Qed.
 
 Lemma lz_eqb_app_neq a t : t <> [] -> lz_eqb (a ++ t) a = false.
 Proof.
@@ -470,12 +598,12 @@ Proof.
     apply Z.eqb_eq in H; subst c; reflexivity.
 Qed.
 
-(* phase C: the delimiter line *)
-Lemma step_delimiter b last pad eol :
+(* the delimiter line passes the boundary test *)
+Lemma delimiter_hit b last pad eol :
   boundary_ok b = true -> forallb is_blank_c pad = true ->
   (eol = [13; 10] \/ eol = []) ->
-  rlob_step (dashb b) (dashb b ++ [45; 45]) [13; 10] true
-            (bline b last pad ++ eol) = SBreak (if last then 1 else 0).
+  boundary_hit (dashb b) (dashb b ++ [45; 45]) (bline b last pad ++ eol) true
+  = Some (if last then 1 else 0).
 Proof.
   intros Hb Hpad Heol.
   destruct (boundary_ok_facts b Hb) as (_ & (b0 & c & -> & Hc) & _).
@@ -483,8 +611,6 @@ Proof.
   { rewrite forallb_app. apply andb_true_iff. split.
     - rewrite forallb_forall in *. intros x Hx. apply is_blank_ws, Hpad, Hx.
     - destruct Heol as [-> | ->]; reflexivity. }
-  unfold rlob_step, carry.
-  replace (lz_eqb [13; 10] [13]) with false by reflexivity.
   unfold boundary_hit.
   assert (Hp : prefixb [45; 45] (bline (b0 ++ [c]) last pad ++ eol) = true).
   { unfold bline, dashb. cbn [app prefixb]. rewrite !Z.eqb_refl. reflexivity. }
@@ -509,6 +635,39 @@ Proof.
                              | exact Hws]. }
     rewrite Hr, lz_eqb_refl. reflexivity.
 Qed.
+
+(* phase C: the delimiter line behind a complete CRLF *)
+Lemma step_delimiter b last pad eol :
+  boundary_ok b = true -> forallb is_blank_c pad = true ->
+  (eol = [13; 10] \/ eol = []) ->
+  rlob_step (dashb b) (dashb b ++ [45; 45]) [13; 10] true
+            (bline b last pad ++ eol) = SBreak (if last then 1 else 0).
+Proof.
+  intros Hb Hpad Heol. unfold rlob_step, carry.
+  replace (lz_eqb [13; 10] [13]) with false by reflexivity.
+  rewrite (delimiter_hit b last pad eol Hb Hpad Heol). reflexivity.
+Qed.
+
+(* phase B: a carried CR, then the LF glued to the delimiter line (a reader
+   that ends lines only at CRLF) *)
+Lemma step_lf_delimiter b last pad eol lfend :
+  boundary_ok b = true -> forallb is_blank_c pad = true ->
+  (eol = [13; 10] \/ eol = []) ->
+  rlob_step (dashb b) (dashb b ++ [45; 45]) [13] lfend
+            (10 :: bline b last pad ++ eol) = SBreak (if last then 1 else 0).
+Proof.
+  intros Hb Hpad Heol. unfold rlob_step, carry.
+  replace (lz_eqb [13] [13]) with true by reflexivity.
+  replace (10 =? 10) with true by reflexivity.
+  assert (Hne : is_nil (bline b last pad ++ eol) = false).
+  { unfold bline, dashb. reflexivity. }
+  rewrite Hne, (delimiter_hit b last pad eol Hb Hpad Heol). reflexivity.
+Qed.
+
+(* ... or the LF on its own (a reader that ends lines at LF) *)
+Lemma step_lone_lf nb lb lfend :
+  rlob_step nb lb [13] lfend [10] = SCont None [13; 10] true.
+Proof. reflexivity. Qed.
 
 Lemma limit_hit_false limit clen nread :
   limit_ok limit clen -> nread <= clen + 2 -> limit_hit limit nread = false.
